@@ -27,6 +27,7 @@ type specSig struct {
 	name   string
 	params []Val
 	heaps  []string // heap array names read (in order)
+	rows   []specRow // rows of slice parameters read
 	ret    types.Type
 }
 
@@ -670,8 +671,15 @@ func (env *specEnv) call(n *ECall) Val {
 		c := *env
 		c.st = env.old
 		if env.lookup != nil {
-			// at a program point `old` still means function entry; variables are parameters
-			c.lookup = nil
+			// at a program point `old` still means function entry: the heap is the entry heap and
+			// parameter names denote their entry values; other locals keep their current values
+			outer := env.lookup
+			c.lookup = func(name string) (Val, bool) {
+				if v, ok := e.params[name]; ok {
+					return v, true
+				}
+				return outer(name)
+			}
 			c.vars = map[string]Val{}
 			for k, v := range e.params {
 				c.vars[k] = v
@@ -788,6 +796,7 @@ func (env *specEnv) callSpec(sf *SpecFunc, args []Expr) Val {
 	}
 	sig := e.defineSpec(sf)
 	var actual []string
+	var argVals []Val
 	for i, a := range args {
 		v := env.eval(a)
 		pt := sig.params[i].T
@@ -802,10 +811,28 @@ func (env *specEnv) callSpec(sf *SpecFunc, args []Expr) Val {
 			sfail("spec %s: argument %d has the wrong shape", sf.Name, i)
 		}
 		actual = append(actual, v.L...)
+		argVals = append(argVals, v)
 	}
 	// current heap arrays
 	save := e.st
 	e.st = env.st
+	// rows of the slice arguments (the row of the actual's backing array in the current heap)
+	for _, r := range sig.rows {
+		pi := -1
+		for i, p := range sf.Params {
+			if p.Name == r.param {
+				pi = i
+			}
+		}
+		base := argVals[pi].L[0]
+		if e.st.epoch == -1 {
+			if row, ok := e.specRowFor(base, r.arr, r.sort); ok {
+				actual = append(actual, row)
+				continue
+			}
+		}
+		actual = append(actual, "(select "+e.heapArr(r.arr, "(Array Int "+r.sort+")")+" "+base+")")
+	}
 	for _, h := range sig.heaps {
 		actual = append(actual, e.heapArr(h, e.heapSort[h]))
 	}
@@ -848,6 +875,34 @@ func (e *FnEnc) defineSpec(sf *SpecFunc) *specSig {
 	if len(rl) != 1 {
 		sfail("spec %s: result must be scalar", sf.Name)
 	}
+	// abstract spec function: uninterpreted function of its arguments and of the contents of its
+	// slice arguments (the element arrays of their element types)
+	if id, ok := sf.Body.(*EIdent); ok && id.Name == "abstract" {
+		var sorts []string
+		for pi, pv := range sig.params {
+			for _, l := range e.sorter.leaves(pv.T) {
+				sorts = append(sorts, l.sort)
+			}
+			if sl, ok := pv.T.Underlying().(*types.Slice); ok && !isAggregateElem(sl.Elem()) {
+				for _, l := range e.sorter.leaves(sl.Elem()) {
+					name := elemArrName(typeName(sl.Elem()), l.suffix)
+					if _, known := e.heapSort[name]; !known {
+						save := e.st
+						e.st = e.st0
+						e.heapArr(name, e.arrSort2(l.sort))
+						e.st = save
+					}
+					sig.rows = append(sig.rows, specRow{sf.Params[pi].Name, name, "(Array " + e.sorter.idxSort() + " " + l.sort + ")"})
+				}
+			}
+		}
+		for _, r := range sig.rows {
+			sorts = append(sorts, r.sort)
+		}
+		e.specDefs = append(e.specDefs, fmt.Sprintf("(declare-fun %s (%s) %s)", quoteSym("sf_"+sf.Name), strings.Join(sorts, " "), rl[0].sort))
+		e.specDone[key] = sig
+		return sig
+	}
 	// symbolic heap: every array read becomes a formal named after the array
 	symState := &State{heap: map[string]string{}, epoch: -1}
 	env.st, env.old = symState, symState
@@ -855,6 +910,13 @@ func (e *FnEnc) defineSpec(sf *SpecFunc) *specSig {
 	prov := &specSig{name: sf.Name, params: sig.params, ret: sig.ret}
 	e.specDone[key] = prov
 	e.specHeapUse = append(e.specHeapUse, map[string]bool{})
+	ctx := &specCtx{rowBases: map[string]string{}}
+	for i, p := range sf.Params {
+		if sl, ok := sig.params[i].T.Underlying().(*types.Slice); ok && !isAggregateElem(sl.Elem()) {
+			ctx.rowBases[sig.params[i].L[0]] = p.Name
+		}
+	}
+	e.specCtxs = append(e.specCtxs, ctx)
 	body := func() Val {
 		save := e.st
 		e.st = symState
@@ -865,6 +927,11 @@ func (e *FnEnc) defineSpec(sf *SpecFunc) *specSig {
 	}()
 	used := e.specHeapUse[len(e.specHeapUse)-1]
 	e.specHeapUse = e.specHeapUse[:len(e.specHeapUse)-1]
+	e.specCtxs = e.specCtxs[:len(e.specCtxs)-1]
+	sig.rows = ctx.rowUse
+	for _, r := range sig.rows {
+		formals = append(formals, "("+r.formal()+" "+r.sort+")")
+	}
 	sig.heaps = sortedKeys(used)
 	for _, h := range sig.heaps {
 		formals = append(formals, "("+quoteSym("hf:"+h)+" "+e.heapSort[h]+")")
@@ -876,6 +943,9 @@ func (e *FnEnc) defineSpec(sf *SpecFunc) *specSig {
 	if sf.Rec {
 		// recursive calls were emitted with the provisional (heap-less) argument list; append heap formals
 		var hf []string
+		for _, r := range sig.rows {
+			hf = append(hf, r.formal())
+		}
 		for _, h := range sig.heaps {
 			hf = append(hf, quoteSym("hf:"+h))
 		}
